@@ -22,7 +22,8 @@ PROP = "C18"
 
 BASE = {
     "n_ord": (3, 8), "n_trip": [0, 1, 1, 2], "n_miss": [0, 0, 1], "n_nodes": (8, 36),
-    "group_prob": [0.1, 0.25, 0.4], "dup_prob": [0.2, 0.4, 0.6], "mirror_prob": [0.1, 0.25, 0.4], "sweep_prob": [0.3, 0.6], "n_steps": (8, 28), "kind_off_prob": 0.1,
+    "group_prob": [0.1, 0.25, 0.4], "dup_prob": [0.2, 0.4, 0.6], "mirror_prob": [0.2, 0.4, 0.6], "sweep_prob": [0.4, 0.7], "perm_points_prob": [0.3, 0.6],
+    "poly_prob": [0.05, 0.15], "n_steps": (8, 28), "kind_off_prob": 0.1,
     "early_prob": [0.5, 0.8],
     "weights": {
         "at": 4, "at_num": 0.5, "mk_partial": 3, "mk_derivative": 0.5, "mk_differential": 5,
@@ -215,7 +216,7 @@ def main(args, seed):
         return do_replay(args.replay)
     t0 = time.time()
     tier = args.tier
-    n_runs = args.runs or (3000 if tier == "quick" else 30000)
+    n_runs = args.runs or (5000 if tier == "quick" else 30000)
     cfgs = configs_for(tier)
     workers = args.workers or min(16, os.cpu_count() or 1)
     # every configuration executes the same run indices; slices keep all cores busy
